@@ -32,6 +32,8 @@ pub(crate) struct Chip {
     // environment
     pub calls: usize,
     pub fail_at: usize,
+    /// a second, independent fault position (a fault while recovering from the first)
+    pub fail_at2: usize,
     pub irq_script: [u8; 3], // 0: Ok(None) 1: Ok(Some(PreambleReceived)) 2: Ok(Some(Done)) 3..: Err(timeout)
     pub irq_pos: usize,
     pub rx_continuous: bool,
@@ -41,7 +43,7 @@ pub(crate) struct Chip {
 pub(crate) static mut CHIP: Uq<Chip> = Uq { magic: 0x6C72760032E6EFE0, v: Chip {
     mode: ChipMode::Sleep, duty_sleeping: false, init: false, txpower: false, irq: false, modulation: false,
     packet: false, freq: false, payload: false, asleep_cmd: false, dep_missing: false, calls: 0,
-    fail_at: usize::MAX, irq_script: [2; 3], irq_pos: 0, rx_continuous: false, listen_only: false,
+    fail_at: usize::MAX, fail_at2: usize::MAX, irq_script: [2; 3], irq_pos: 0, rx_continuous: false, listen_only: false,
 } };
 pub(crate) fn chip() -> &'static mut Chip {
     unsafe { &mut *core::ptr::addr_of_mut!(CHIP.v) }
@@ -55,7 +57,7 @@ impl ModelChip {
         let c = chip();
         let k = c.calls;
         c.calls += 1;
-        if k == c.fail_at {
+        if k == c.fail_at || k == c.fail_at2 {
             return Err(RadioError::SPI);
         }
         if c.mode == ChipMode::Sleep || c.duty_sleeping {
@@ -93,7 +95,7 @@ impl RadioKind for ModelChip {
         let c = chip();
         let k = c.calls;
         c.calls += 1;
-        if k == c.fail_at {
+        if k == c.fail_at || k == c.fail_at2 {
             return Err(RadioError::Reset);
         }
         c.mode = ChipMode::Standby;
@@ -105,7 +107,7 @@ impl RadioKind for ModelChip {
         let c = chip();
         let k = c.calls;
         c.calls += 1;
-        if k == c.fail_at {
+        if k == c.fail_at || k == c.fail_at2 {
             return Err(RadioError::Busy);
         }
         match mode {
@@ -234,7 +236,7 @@ impl RadioKind for ModelChip {
         let c = chip();
         let k = c.calls;
         c.calls += 1;
-        if k == c.fail_at { Err(RadioError::Irq) } else { Ok(()) }
+        if k == c.fail_at || k == c.fail_at2 { Err(RadioError::Irq) } else { Ok(()) }
     }
     async fn process_irq_event(&mut self, _mode: RadioMode, cad: Option<&mut bool>, _clear: bool) -> Result<Option<IrqState>, RadioError> {
         // IRQ processing follows an interrupt from the chip: it is not in a duty-cycle sleep phase then
@@ -297,7 +299,6 @@ fn any_mode() -> RadioMode {
 /// arbitrary driver + chip state coupled by I-phy:
 ///   chip asleep                         => driver mode is Sleep
 ///   chip in a duty-cycle sleep phase    => driver mode is Receive(DutyCycle)
-///   driver mode Sleep                   => chip asleep (the driver only records Sleep after set_sleep succeeded)
 ///   driver mode Standby                 => chip in standby
 ///   !cold_start                         => init_lora, PA/ramp and IRQ setup done since the last cold start
 fn any_coupled() -> LoRa<ModelChip, MockDelay> {
@@ -311,6 +312,7 @@ fn any_coupled() -> LoRa<ModelChip, MockDelay> {
     c.dep_missing = false;
     c.calls = 0;
     c.fail_at = kani::any();
+    c.fail_at2 = kani::any();
     c.irq_script = kani::any();
     c.irq_pos = 0;
     c.rx_continuous = kani::any();
@@ -324,16 +326,18 @@ fn inv(l: &LoRa<ModelChip, MockDelay>) -> bool {
     let c = chip();
     let asleep = c.mode == ChipMode::Sleep;
     let drv_sleep = l.radio_mode == RadioMode::Sleep;
-    (asleep == drv_sleep)
+    // (driver Sleep while the chip is awake is harmless -- the driver wakes it again -- and is
+    // what a fault between the wake-up and the next mode change leaves behind)
+    (!asleep || drv_sleep)
         && (!c.duty_sleeping || (c.mode == ChipMode::Rx && matches!(l.radio_mode, RadioMode::Receive(RxMode::DutyCycle(_)))))
         && (l.radio_mode != RadioMode::Standby || c.mode == ChipMode::Standby)
         && (l.cold_start || (c.init && c.txpower && c.irq))
-        // a prepared operation has programmed what it depends on (set by prepare_for_*)
-        && (l.radio_mode != RadioMode::Transmit || l.cold_start || (c.modulation && c.packet && c.freq && c.payload))
-        && (!matches!(l.radio_mode, RadioMode::Receive(_)) || l.cold_start || (c.modulation && c.packet && c.freq))
-        && (l.radio_mode != RadioMode::ChannelActivityDetection || l.cold_start || (c.modulation && c.freq))
-        // a cold start is pending only while nothing is prepared
-        && (!l.cold_start || matches!(l.radio_mode, RadioMode::Sleep | RadioMode::Standby))
+        // a prepared operation has programmed everything it depends on (set by prepare_for_*),
+        // whether or not a cold start is recorded as pending: a fault may separate the flag from
+        // the mode (init() sets the flag before the reset it then fails to perform)
+        && (l.radio_mode != RadioMode::Transmit || (c.init && c.txpower && c.irq && c.modulation && c.packet && c.freq && c.payload))
+        && (!matches!(l.radio_mode, RadioMode::Receive(_)) || (c.init && c.irq && c.modulation && c.packet && c.freq))
+        && (l.radio_mode != RadioMode::ChannelActivityDetection || (c.init && c.irq && c.modulation && c.freq))
 }
 
 fn any_mp() -> ModulationParams {
@@ -343,15 +347,21 @@ fn any_pp() -> PacketParams {
     PacketParams { preamble_length: kani::any(), implicit_header: kani::any(), payload_length: kani::any(), crc_on: kani::any(), iq_inverted: kani::any() }
 }
 
+pub(crate) fn faulted() -> bool {
+    let c = chip();
+    c.fail_at < c.calls || c.fail_at2 < c.calls
+}
+
 /// common post-conditions of every API call
 fn post(l: &LoRa<ModelChip, MockDelay>, name: &'static str) {
     let c = chip();
     kani::assert(!c.asleep_cmd, "C14: the chip was commanded while asleep without being woken first");
     kani::assert(!c.dep_missing, "C14: a transmission/reception/CAD was started although something it depends on has not been programmed since the last cold start");
-    let faulted = c.fail_at < c.calls;
-    if !faulted {
-        kani::assert(inv(l), "C14: driver and chip state disagree after the call (invariant I-phy)");
-    }
+    // the invariant is inductive over histories WITH faults: it must survive a call that failed
+    // (up to two faults per call), otherwise the states after a fault would not be covered by the
+    // other harnesses' start states
+    kani::assert(inv(l), "C14: driver and chip state disagree after the call (invariant I-phy)");
+
     let _ = name;
 }
 
@@ -390,7 +400,9 @@ op!(api_sleep, l, {
     let was_asleep = l.radio_mode == RadioMode::Sleep;
     let r = block_on(l.sleep(warm));
     if r.is_ok() {
-        kani::assert(chip().mode == ChipMode::Sleep && l.radio_mode == RadioMode::Sleep, "C14: sleep puts chip and driver to sleep");
+        // (a driver that already records Sleep does nothing; after a fault the chip may in fact be
+        // awake in that state, which the next wake-up absorbs)
+        kani::assert(l.radio_mode == RadioMode::Sleep && (was_asleep || chip().mode == ChipMode::Sleep), "C14: sleep puts chip and driver to sleep");
         kani::assert(warm || was_asleep || l.cold_start, "C14: a cold sleep is remembered so that everything is programmed again");
     }
 });
@@ -418,7 +430,7 @@ op!(api_tx, l, {
     let r = block_on(l.tx());
     if !was_tx {
         wrong_mode_refused(&r, before);
-    } else if r.is_err() && chip().fail_at >= chip().calls {
+    } else if r.is_err() && !faulted() {
         kani::assert(chip().mode == ChipMode::Standby && l.radio_mode == RadioMode::Standby, "C14: after a failed or timed-out transmission the chip is in standby and the driver knows it");
     }
     kani::cover!(r.is_ok(), "transmission completed");
@@ -457,7 +469,7 @@ op!(api_complete_rx, l, {
     let r = block_on(l.complete_rx(&pp, &mut buf));
     if !matches!(mode0, RadioMode::Receive(_)) {
         wrong_mode_refused(&r, before);
-    } else if r.is_err() && chip().fail_at >= chip().calls && mode0 != RadioMode::Receive(RxMode::Continuous) {
+    } else if r.is_err() && !faulted() && mode0 != RadioMode::Receive(RxMode::Continuous) {
         kani::assert(chip().mode == ChipMode::Standby && l.radio_mode == RadioMode::Standby, "C14: after a failed or timed-out reception the chip is in standby and the driver knows it");
     }
 });
@@ -502,7 +514,7 @@ op!(api_cad, l, {
     let r = block_on(l.cad(&mp));
     if !was_cad {
         wrong_mode_refused(&r, before);
-    } else if chip().fail_at >= chip().calls {
+    } else if !faulted() {
         kani::assert(chip().mode == ChipMode::Standby && l.radio_mode == RadioMode::Standby, "C14: after CAD (done, failed or timed out) the chip is in standby and the driver knows it");
     }
 });
